@@ -18,11 +18,13 @@ from concurrent.futures import ThreadPoolExecutor
 
 from .. import common, tlc
 
-INV = ["TypeOK", "DirExact", "DiskIsWant", "LoadReturnsLast", "LoadNewReturnsLast", "MergeSeesPrevious", "DeleteWorks", "MemIsDisk"]
+INV = ["TypeOK", "DirExact", "DiskIsWant", "LoadReturnsLast", "LoadNewReturnsLast", "LoadSibReturnsLast", "MergeSeesPrevious", "DeleteWorks", "MemIsDisk"]
 RTINV = ["RtIdentity", "RtLazyIsEager", "RtDir", "RtNoDeadlock"]
 ALLOPS = ["Save", "Load", "LoadNew", "SaveMerge", "HarvSame", "HarvFresh", "Delete"]
 SITES = ["save", "load", "loadNewTest", "mergeTest", "mergeLoad", "harvTest", "harvLoad", "harvRemove", "delete"]
 EXTS = ["", ".h5", ".dmp"]
+DOTTED = ".5"      # the logical name 'data_T0.5' (a dot, no engine extension) with the sibling 'data_T0.25' next to it
+DOTTED_OPS = ["Save", "Load", "LoadNew", "SaveMerge", "HarvFresh", "Delete", "SaveSib", "LoadSib"]
 ENGINES = ["h5netcdf", "joblib"]
 POL = {"none": None, "true": True, "false": False}
 
@@ -50,15 +52,16 @@ def _set(x):
     return set(x) if x else tlc.Raw("{}")
 
 
-def run_naming(ext, eng, maxlen, pols=("none",), raw=(), deff=(), emit=False, tag="", **kw):
-    consts = dict(NameExt=ext, Engine=eng, MaxLen=maxlen, Policies=_set(pols), OpsOn=_set(ALLOPS),
+def run_naming(ext, eng, maxlen, pols=("none",), raw=(), deff=(), emit=False, tag="", namerule="append", **kw):
+    consts = dict(NameExt=ext, NameRule=namerule, Engine=eng, MaxLen=maxlen, Policies=_set(pols),
+                  OpsOn=_set(DOTTED_OPS if ext == DOTTED else ALLOPS),
                   RawSites=_set(raw), DefEngSites=_set(deff), RtRule="ok")
     tail = "".join("INVARIANT %s\n" % i for i in INV) + ("INVARIANT EmitCase\n" if emit else "") + "CHECK_DEADLOCK FALSE\n"
     return _tlc("DsStore", consts, tail, name="MC_DsStore_%s%s_%s" % (eng, ext.replace(".", "_"), tag), **kw)
 
 
 def run_rt(ext, eng, rule="ok", emit=False, **kw):
-    consts = dict(NameExt=ext, Engine=eng, MaxLen=0, Policies=_set(["none"]), OpsOn=_set([]),
+    consts = dict(NameExt=ext, NameRule="append", Engine=eng, MaxLen=0, Policies=_set(["none"]), OpsOn=_set([]),
                   RawSites=_set([]), DefEngSites=_set([]), RtRule=rule)
     tail = "INIT RtInit\nNEXT RtNext\n" + "".join("INVARIANT %s\n" % i for i in RTINV) \
         + ("INVARIANT RtEmit\n" if emit else "") + "CHECK_DEADLOCK FALSE\n"
@@ -110,7 +113,8 @@ def check_hist(c):
     step at which the real code leaves the behaviour the property demands)."""
     xyz = common.use_repo()
     ext, eng = c["ext"], c["engine"]
-    name = "data" + ext
+    name = c.get("name", "data" + ext)
+    sib = c.get("sib")
     td = tempfile.mkdtemp(prefix="c14-", dir=common.scratch("c14"))
     cwd = os.getcwd()
     os.chdir(td)
@@ -120,13 +124,17 @@ def check_hist(c):
         for n, st in enumerate(c["hist"]):
             op = st["op"]
             got_st, got_val, exc = "ok", None, None
-            if op not in ALLOPS:
+            if op not in ALLOPS + DOTTED_OPS:
                 raise RuntimeError("harness: unknown op %r" % op)
             try:
                 if op == "Save":
                     xyz.save_ds(piece_ds(st["p"]), name, engine=eng)
                 elif op == "Load":
                     got_val = pieces_of(xyz.load_ds(name, engine=eng))
+                elif op == "SaveSib":
+                    xyz.save_ds(piece_ds(st["p"]), sib, engine=eng)
+                elif op == "LoadSib":
+                    got_val = pieces_of(xyz.load_ds(sib, engine=eng))
                 elif op == "LoadNew":
                     lds = xyz.load_ds(name, engine=eng, create_new=True, chunks=(1 if st["ch"] == "int" else None))
                     try:
@@ -147,10 +155,10 @@ def check_hist(c):
                     h = None
             except Exception as e:  # noqa
                 got_st, exc = "raises", "%s: %s" % (type(e).__name__, str(e)[:160])
-            where = "step %d (%s%s) of %s with name %r, engine %s" % (
+            where = "step %d (%s%s) of %s with name %r%s, engine %s" % (
                 n + 1, op, "" if st["pol"] == "none" else ", overwrite=%s" % POL[st["pol"]],
-                [s["op"] for s in c["hist"]], name, eng)
-            key = dict(part="naming", op=op, hasext=bool(ext), engine=eng)
+                [s["op"] for s in c["hist"]], name, (" (sibling %r)" % sib) if ext == DOTTED else "", eng)
+            key = dict(part="naming", op=op, hasext=ext in (".h5", ".dmp"), dotted=(ext == DOTTED), engine=eng)
             want_st = st["st"] if st["st"] in ("ok", "blank") else "raises"
             if got_st != want_st:
                 if got_st == "blank":
@@ -173,7 +181,7 @@ def check_hist(c):
                              % (where, f, sorted(pcs), want_disk.get(f, [])))]
                 if any(abs(v - (10.0 * p + 1.0)) > 0 for p, v in pcs.items()):
                     return [(dict(key, what="values"), "%s: %s holds changed values %r" % (where, f, pcs))]
-            if op in ("Load", "LoadNew") and want_st == "ok":
+            if op in ("Load", "LoadNew", "LoadSib") and want_st == "ok":
                 if sorted(got_val) != sorted(st["val"]):
                     return [(dict(key, what="loaded"), "%s: load_ds returned the pieces %r, last saved/merged content is %r"
                              % (where, sorted(got_val), sorted(st["val"])))]
@@ -319,7 +327,7 @@ def check_rt(c):
     xyz = common.use_repo()
     import numpy as np  # noqa
     cfg, eng, ext = c["cfg"], c["engine"], c["ext"]
-    name = "data" + ext
+    name = c.get("name", "data" + ext)
     key = dict(part="roundtrip", engine=eng, vdt=cfg["vdt"], cdt=cfg["cdt"])
     td = tempfile.mkdtemp(prefix="c14-", dir=common.scratch("c14"))
     cwd = os.getcwd()
@@ -392,7 +400,7 @@ def run(rep):
     len_a, len_b = (5, 3) if thorough else (4, 2)
     rep.rule = ("part 1: DsStore.tla explores every history of Save/Load/LoadNew(create_new)/SaveMerge/HarvFresh/HarvSame/Delete of length "
                 "%d (overwrite=None; one less for the names that carry an extension; quick tier: also for 'data' with h5netcdf) and %d (all three policies) "
-                "for name in {data, data.h5, data.dmp} x engine in "
+                "for name in {data, data.h5, data.dmp, data_T0.5 (+ sibling data_T0.25 in the same directory)} x engine in "
                 "{h5netcdf, joblib}; a history is non-trivial when it contains a merge or delete after a save; part 2: "
                 "every (ndim 0-4, variable dtype, coordinate dtype, NaN pattern, attribute set, chunks) configuration; "
                 "distinct = distinct (name, engine, history) resp. (name, engine, configuration)" % (len_a, len_b))
@@ -419,6 +427,10 @@ def run(rep):
             jobs[("A", ext, eng)] = ex.submit(run_naming, ext, eng, la, ("none",), emit=True, tag="A", workers=1, coverage=True)
             jobs[("B", ext, eng)] = ex.submit(run_naming, ext, eng, len_b, ("none", "true", "false"), emit=True, tag="B", workers=1, coverage=True)
             jobs[("rt", ext, eng)] = ex.submit(run_rt, ext, eng, emit=True, workers=1, coverage=True)
+        for eng in ENGINES:
+            jobs[("A", DOTTED, eng)] = ex.submit(run_naming, DOTTED, eng, len_a if thorough else len_a - 1, ("none",), emit=True,
+                                                 tag="A", workers=1, coverage=True)
+        jobs[("namerule", "splitext")] = ex.submit(run_naming, DOTTED, "h5netcdf", 3, namerule="splitext", tag="splitext", workers=1)
         # deviating implementations the invariants must reject
         jobs[("pinned", "", "h5netcdf")] = ex.submit(run_naming, "", "h5netcdf", 3, raw=["mergeTest", "harvTest", "harvRemove"],
                                                     deff=["mergeLoad"], tag="pinned", workers=1)
@@ -431,7 +443,7 @@ def run(rep):
             jobs[("rtrule", rule)] = ex.submit(run_rt, "", eng, rule=rule, workers=1)
         results = {k: f.result() for k, f in jobs.items()}
     for k, r in results.items():
-        if k[0] in ("pinned", "rtrule") or (k[0] == "site" and k[1] != "harvRemove"):
+        if k[0] in ("pinned", "rtrule", "namerule") or (k[0] == "site" and k[1] != "harvRemove"):
             if r.violated is None:
                 raise tlc.TLCError("self-test failed: deviating model %r is not rejected by the invariants" % (k,))
     rep.note("self-test: TLC rejects the pinned naming (%s for 'data'/h5netcdf, %s for 'data.dmp'/joblib), every single site "
@@ -440,12 +452,17 @@ def run(rep):
                  ", ".join("%s:%s" % (s, results[("site", s)].violated) for s in SITES if s != "harvRemove"),
                  ", ".join("%s:%s" % (k[1], r.violated) for k, r in results.items() if k[0] == "rtrule"),
                  results[("site", "harvRemove")].violated))
+    rep.note("self-test: TLC rejects NameRule='splitext' (unknown suffix replaced by the extension) for 'data_T0.5': %s"
+             % results[("namerule", "splitext")].violated)
     hists, rts = [], []
     for (kind, ext, eng), r in [(k, r) for k, r in results.items() if k[0] in ("A", "B", "rt")]:
-        rep.add_tlc("DsStore %s name=data%s engine=%s" % ({"A": "naming", "B": "naming+policies", "rt": "round-trip"}[kind], ext, eng), r)
+        rep.add_tlc("DsStore %s name=%s engine=%s" % ({"A": "naming", "B": "naming+policies", "rt": "round-trip"}[kind],
+                                                       "data_T0.5" if ext == DOTTED else "data" + ext, eng), r)
         if r.violated:
             raise tlc.TLCError("DsStore.tla: invariant %s violated (%s, data%s, %s)" % (r.violated, kind, ext, eng))
         need = ["RtSave", "RtLoadEager", "RtLoadLazy"] if kind == "rt" else ["Save", "Load", "LoadNew", "SaveMerge", "HarvSync", "Delete"]
+        if ext == DOTTED:
+            need += ["SaveSib", "LoadSib"]
         for act in need:
             if r.coverage.get(act, (0, 0))[1] == 0:
                 raise tlc.TLCError("vacuous: action %s never taken (%s, data%s, %s)" % (act, kind, ext, eng))
